@@ -471,7 +471,7 @@ func c19GenRT(r *rand.Rand, fl c19Flavour) *c19RT {
 				b.Distance = uint8(r.Uint32())
 			}
 			if fl.frrAtLeast(7.5) && r.IntN(2) == 0 {
-				b.Message |= messageSRTE
+				b.Message |= messageSRTE.ToEach(fl.v, fl.sw) // (0x100 in frr7.5, 0x200 from frr8 on)
 				b.srteColor = r.Uint32()
 				feature = "srte"
 			}
@@ -892,7 +892,7 @@ func c19SeedNexthopUpdate(fl c19Flavour, r *rand.Rand) []byte {
 	}
 	if fl.frrAtLeast(7.5) {
 		if r.IntN(3) == 0 {
-			msg |= messageSRTE
+			msg |= messageSRTE.ToEach(fl.v, fl.sw)
 		}
 		b = append(b, c19U32(uint32(msg))...)
 		if fl.sw.version >= 8.2 {
@@ -905,7 +905,7 @@ func c19SeedNexthopUpdate(fl c19Flavour, r *rand.Rand) []byte {
 	b = append(b, c19U16(uint16(fam))...)
 	b = append(b, plen)
 	b = append(b, a.AsSlice()...)
-	if msg&messageSRTE > 0 {
+	if msg&messageSRTE.ToEach(fl.v, fl.sw) > 0 {
 		b = append(b, c19U32(r.Uint32())...)
 	}
 	if fl.v > 4 {
